@@ -458,6 +458,46 @@ def check(run, repo, world):
            where(mod, fn))
     run.floor("uses of the caller's permitted set", len(walks), 1)
 
+    # ---- the commands reach the gear as the standard requires ------------
+    # a configuration command acts only when it arrives twice within 100 ms:
+    # RANDOMISE sent once leaves every unit on the same random address (the
+    # clash loop never ends), SET SHORT ADDRESS sent once leaves the old
+    # address in place.  The drivers read the class attribute.
+    run.rule("R-COMM-TWICE", "commands the sequence yields are send-twice "
+             "exactly where IEC 62386-102 says so (class-table lookup)")
+    from .. import cmdtable
+    from ..fold import Folder as _Folder
+    _spec = cmdtable.load_spec()
+    _rows = {}
+    for _sec in ("102 standard dt=0", "102 special"):
+        for _r in _spec.get(_sec, []):
+            _rows[_r["name"]] = _r
+    _fold = _Folder(world)
+    _seen = set()
+    _m2, _fn2, _ = world.func(MOD + "._find_next")
+    _ys2 = yields_of(gen_cfg(_fn2, MOD + "._find_next"), world, MOD)
+    for y in list(ys) + list(_ys2):
+        k = y.cls
+        if k is None or k.name in _seen or not k.qname.startswith(
+                "dali.gear.general."):
+            continue
+        # spec rows are named after the standard; the library's class may
+        # carry a Set... prefix (SetSearchAddrH = SearchaddrH)
+        row = _rows.get(k.name)
+        if row is None or row["twice"] is None:
+            continue
+        _seen.add(k.name)
+        tw = _fold.class_attr(k, "sendtwice")
+        run.ob("R-COMM-TWICE", k.qname, bool(tw) == row["twice"] and
+               isinstance(tw, bool),
+               "%s.sendtwice is %r, the standard says %s: the gear %s" % (
+                   k.name, tw, row["twice"],
+                   "ignores the single transmission" if row["twice"]
+                   else "sees the command twice"),
+               where(repo.mod(k.mod), k.node))
+    run.floor("commissioning commands with a send-twice entry in the "
+              "standard's table", len(_seen), 6)
+
     # ---- R-COMM-CLASH -----------------------------------------------------
     _check_find_next(run, repo, world, cfg, ys, ynode)
     _check_advance(run, mod, C, fn)
@@ -977,11 +1017,11 @@ def _check_find_next(run, repo, world, ccfg, cys, cynode):
             "search-address prefix)")
     hi = fn.args.args[1].arg if len(fn.args.args) > 1 else "high"
     shifts_ok = len(seq) >= 3 and [
-        _byte_lane(seq[i].arg(0), hi) for i in range(3)] == [2, 1, 0]
+        _byte_lane(seq[i].arg(0), hi, fn) for i in range(3)] == [2, 1, 0]
     run.ob("R-COMM-CLASH", F + "#search-address-order",
            got == want and shifts_ok,
            "expected H,M,L of `%s` then Compare, got %s lanes %s" % (
-               hi, got, [(_byte_lane(y.arg(0), hi)) for y in seq[:3]]),
+               hi, got, [(_byte_lane(y.arg(0), hi, fn)) for y in seq[:3]]),
            where(mod, fn))
     cmp_y = seq[3] if len(seq) > 3 else None
     if cmp_y is None or cmp_y.target is None:
@@ -1057,8 +1097,36 @@ def _check_find_next(run, repo, world, ccfg, cys, cynode):
            where(mod, fn))
 
 
-def _byte_lane(e, var):
-    """(var >> 8k) & 0xff  /  var & 0xff  -> k"""
+def _byte_lane(e, var, fn=None):
+    """(var >> 8k) & 0xff  /  var & 0xff  -> k; also element i of
+    `(var [& 0xffffff]).to_bytes(3, 'big' | 'little')`, through a local
+    bound by unpacking it."""
+    if fn is not None and isinstance(e, ast.Name):
+        from .. import astq
+        d = astq._defs(fn).get(e.id)
+        if d is not None:
+            return _byte_lane(d, var, None)
+    if isinstance(e, ast.Subscript) and isinstance(
+            e.slice, ast.Constant) and type(e.slice.value) is int and \
+            isinstance(e.value, ast.Call) and isinstance(
+                e.value.func, ast.Attribute) and \
+            e.value.func.attr == "to_bytes":
+        c = e.value
+        kw = {k.arg: k.value for k in c.keywords}
+        n_ = c.args[0] if c.args else kw.get("length")
+        o_ = c.args[1] if len(c.args) > 1 else kw.get("byteorder")
+        src = c.func.value
+        if isinstance(src, ast.BinOp) and isinstance(
+                src.op, ast.BitAnd) and isinstance(
+                    src.right, ast.Constant) and src.right.value == 0xffffff:
+            src = src.left
+        if isinstance(src, ast.Name) and src.id == var and isinstance(
+                n_, ast.Constant) and n_.value == 3 and isinstance(
+                    o_, ast.Constant) and o_.value in ("big", "little") \
+                and 0 <= e.slice.value < 3:
+            return (2 - e.slice.value) if o_.value == "big" \
+                else e.slice.value
+        return None
     if isinstance(e, ast.BinOp) and isinstance(e.op, ast.BitAnd) and \
             isinstance(e.right, ast.Constant) and e.right.value == 0xff:
         l = e.left
